@@ -14,6 +14,7 @@
 """
 import json
 import os
+import shutil
 import random
 import sys
 import tempfile
@@ -344,14 +345,19 @@ def main(pid="C02"):
         reach = 0
         names = ["plain.gmi", "s p a c e.gmi", "café.gmi", "semi;colon.gmi", "q?mark.gmi", "hash#tag.gmi", "pct%25.gmi",
                  "plus+.gmi", "amp&.gmi", "quote'.gmi", "日本.gmi", "tab\tx.gmi", "a=b.gmi", "at@.gmi", "col:on.gmi",
-                 "br[ack]et.gmi", "%41.gmi"]
+                 "br[ack]et.gmi", "%41.gmi",
+                 # dots are characters of a name: only the segments "." and ".." mean something
+                 "..draft.gmi", "...", "....gmi", ".hidden.gmi", "v1..2.gmi", "trailing..", "..data/inner.gmi", "..2026_09_27/..x/deep.gmi",
+                 "~tilde.gmi", "-dash.gmi", "back\\slash.gmi"]
         tree.set_slots({"L1": kinds[0], "idx": kinds[0]})
         handler = StaticFileHandler(tree.root)
         for nm in names:
             fp = os.path.join(tree.root, nm)
+            os.makedirs(os.path.dirname(fp), exist_ok=True)
             with open(fp, "w") as f:
                 f.write("REACH<%s>\n" % nm)
-            for form, pth in (("encoded", "/" + urllib.parse.quote(nm, safe="")), ("literal", "/" + nm)):
+            for form, pth in (("encoded", "/" + urllib.parse.quote(nm, safe="/")), ("literal", "/" + nm),
+                              ("encoded, dots too", "/" + urllib.parse.quote(nm, safe="/").replace(".", "%2E"))):
                 if form == "literal" and any(c in nm for c in "?#%\t"):
                     continue       # not writable literally in a URL path
                 resp = handler.handle(make_request(pth))
@@ -361,6 +367,8 @@ def main(pid="C02"):
                     rep.violation({"formula": "Reachable", "form": form},
                                   "file %r inside the root requested as %r (%s): %s %s" % (nm, pth, form, resp.status, resp.meta), None)
             os.unlink(fp)
+            if "/" in nm:
+                shutil.rmtree(os.path.join(tree.root, nm.split("/")[0]), ignore_errors=True)
         rep.add("evaluations", reach)
         # ---- V -----------------------------------------------------------------------------------------------------
         rep.set("nonconforming_executions", len(suspects))
